@@ -297,6 +297,8 @@ print(json.dumps(out))
 
 def run_workload(seed):
     env = dict(os.environ, PYTHONHASHSEED=str(seed), PYTHONDONTWRITEBYTECODE='1')
+    if os.environ.get('VERIF_REPO'):
+        env['PYTHONPATH'] = os.environ['VERIF_REPO']
     p = subprocess.run([sys.executable, '-B', '-c', WORKLOAD], env=env, capture_output=True, text=True, timeout=300)
     if p.returncode != 0:
         return None, p.stderr[-800:]
